@@ -194,6 +194,183 @@ def scanGetImage (axes : Axes) (iw : List Nat) (chan : List Int) : Res Image :=
     let cols := (fr.head?.map rowLen).getD 0
     .ok ⟨squeezeShape [fr.length, rows, cols], fr.flatten.flatten⟩
 
+/-! ### sequences of queries on ONE object: `self.start` and `self._cache`
+
+`BaseScan._get_photon_count` (detail/confocal.py) slices the colour's photon stream with the object's
+current `[start, stop)`; an empty slice is "no data".  When the slice starts after `self.start` the
+object is repaired (`Kymo._fix_incorrect_start`: `self.start = seek_timestamp_next_line(...)` and
+`self._cache = {}`; a `Scan` raises `RuntimeError`).  `ConfocalImage._image` is memoised per colour
+through `method_cache` (`cachetools.cachedmethod`: the result is stored in the dict object fetched
+BEFORE the method ran, so an image computed by the call that replaced `_cache` is not kept). -/
+
+/-- the used samples of an info wave with their positions: `(code, index)` -/
+def usedIdx (iw : List Nat) : List (Nat × Nat) := iw.zipIdx.filter fun x => isUsed x.1
+
+/-- positions of the used samples that directly follow a pixel boundary (`time[pixel_ends + 1]`) -/
+def afterBoundary : List (Nat × Nat) → List Nat
+  | x :: y :: rest => if x.1 = 2 then y.2 :: afterBoundary (y :: rest) else afterBoundary (y :: rest)
+  | _ => []
+
+/-- `pixel_start = time[pixel_ends[:-1] + 1]`: the follower of every boundary but the last one. -/
+def pixelStarts (iw : List Nat) : List Nat :=
+  let used := usedIdx iw
+  let a := afterBoundary used
+  match used.getLast? with
+  | some (2, _) => a
+  | _ => a.dropLast
+
+def diffsI : List Nat → List Int
+  | a :: b :: rest => ((b : Int) - (a : Int)) :: diffsI (b :: rest)
+  | _ => []
+
+/-- `seek_timestamp_next_line` (detail/image.py) as a sample index into the window it is given:
+    the pixel start that follows the first pixel-start distance above `(max + min) / 2`;
+    `none` = `ValueError` (`np.max` of an empty array: fewer than three pixel boundaries). -/
+def seekNextLine (iw : List Nat) : Option Nat :=
+  let ps := pixelStarts iw
+  let ds := diffsI ps
+  if ds.isEmpty then none
+  else
+    let thr2 := ds.foldl max (ds.headD 0) + ds.foldl min (ds.headD 0)
+    let idx := (ds.findIdx? fun d => decide (2 * d > thr2)).getD 0
+    ps[idx + 1]?
+
+/-- Kymograph with `P` pixels per line, or scan with the given axes. -/
+inductive Kind
+  | kymo (P : Nat)
+  | scan (axes : Axes)
+deriving Repr
+
+/-- `_to_spatial(reshape_reconstructed_image(pixels, _reconstruction_shape))` with its shape. -/
+def imageOfPixels : Kind → Res (List Int) → Res Image
+  | _, .err e => .err e
+  | .kymo P, .ok px =>
+    let img := kymoImage P px
+    .ok ⟨[img.length, rowLen img], img.flatten⟩
+  | .scan axes, .ok px =>
+    let fr := scanFrames (linesPerFrame axes) (pixelsPerLine axes) (flipAxes axes) px
+    let rows := (fr.head?.map (·.length)).getD 0
+    let cols := (fr.head?.map rowLen).getD 0
+    .ok ⟨squeezeShape [fr.length, rows, cols], fr.flatten.flatten⟩
+
+/-- A colour's photon stream on the info wave's sample grid: its first sample lies `lead` samples
+    before (`lead ≥ 0`) or `-lead` samples after the first info-wave sample; `data = []` = no channel. -/
+structure Stream where
+  lead : Int
+  data : List Int
+deriving Repr, DecidableEq
+
+/-- The mutable part of a confocal object. -/
+structure ObjState where
+  off : Nat                     -- `self.start` as a sample index into the file's info wave
+  gen : Nat                     -- identity of the `_cache` dict (bumped when it is replaced)
+  cache : List (Nat × Image)    -- colour ↦ memoised image
+deriving Repr, DecidableEq
+
+def ObjState.fresh : ObjState := ⟨0, 0, []⟩
+
+/-- `file.<colour>_photon_count[self.start : self.stop]` for `self.start` = sample `off` of an info wave
+    of `n` samples: (distance of the slice's first sample from `self.start`, the samples). -/
+def chanSlice (n off : Nat) (s : Stream) : Nat × List Int :=
+  let rel : Int := s.lead + (off : Int)
+  if rel ≥ 0 then (0, (s.data.drop rel.toNat).take (n - off))
+  else (rel.natAbs, s.data.take (n - off - rel.natAbs))
+
+/-- `_get_confocal_data` + `reconstruct_image_sum` for a photon slice whose first sample lies `a` samples
+    after the first sample of the info-wave window: both are cut at the earlier stop, never at the
+    start, so a slice that starts late (`a > 0`) meets the size check of `reconstruct_image_sum`. -/
+def channelPixelsAt (iw : List Nat) (a : Nat) (chan : List Int) : Res (List Int) :=
+  if a = 0 ∨ chan.length = 0 then channelPixels iw chan
+  else reconstructSum chan (iw.take (a + chan.length))
+
+/-- The image the default factory builds for a colour when `self.start` is sample `off`. -/
+def freshImage (k : Kind) (iw : List Nat) (s : Stream) (off : Nat) : Res Image :=
+  imageOfPixels k (channelPixelsAt (iw.drop off) (chanSlice iw.length off s).1 (chanSlice iw.length off s).2)
+
+/-- Does the colour's slice start after `self.start` (`timeline_start > self.start`)? -/
+def startsLate (n off : Nat) (s : Stream) : Bool :=
+  (chanSlice n off s).2.length != 0 && (chanSlice n off s).1 != 0
+
+def isScan : Kind → Bool
+  | .scan _ => true
+  | .kymo _ => false
+
+/-- `_get_photon_count`: the state it leaves behind, or the exception of `_fix_incorrect_start`. -/
+def photonAccess (k : Kind) (iw : List Nat) (s : Stream) (st : ObjState) : Except String ObjState :=
+  if startsLate iw.length st.off s then
+    if isScan k then .error "RuntimeError"
+    else match seekNextLine (iw.drop st.off) with
+      | none => .error "ValueError"
+      | some d => .ok ⟨st.off + d, st.gen + 1, []⟩
+  else .ok st
+
+def lookupImage (c : Nat) (cache : List (Nat × Image)) : Option Image := (cache.find? (·.1 == c)).map (·.2)
+
+/-- `obj.get_image(colour)` = `obj._image(colour)` with its memoisation. -/
+def queryColour (k : Kind) (iw : List Nat) (s : Stream) (c : Nat) (st : ObjState) : ObjState × Res Image :=
+  match lookupImage c st.cache with
+  | some im => (st, .ok im)
+  | none =>
+    match photonAccess k iw s st with
+    | .error e => (st, .err e)
+    | .ok st' =>
+      match freshImage k iw s st'.off with
+      | .err e => (st', .err e)
+      | .ok im => (if st'.gen = st.gen then { st' with cache := (c, im) :: st'.cache } else st', .ok im)
+
+abbrev Streams := List Stream
+
+def streamOf (ss : Streams) (c : Nat) : Stream := ss.getD c ⟨0, []⟩
+
+/-- `np.stack([...], axis=-1)` of three images. -/
+def stack3 (a b c : Image) : Res Image :=
+  if a.shape = b.shape ∧ b.shape = c.shape then
+    .ok ⟨a.shape ++ [3], ((a.flat.zip (b.flat.zip c.flat)).map fun x => [x.1, x.2.1, x.2.2]).flatten⟩
+  else .err "ValueError"
+
+/-- `get_image("rgb")`: the three colours in turn (the first exception propagates), then the stack. -/
+def queryRgb (k : Kind) (iw : List Nat) (ss : Streams) (st : ObjState) : ObjState × Res Image :=
+  match queryColour k iw (streamOf ss 0) 0 st with
+  | (st, .err e) => (st, .err e)
+  | (st, .ok r) =>
+    match queryColour k iw (streamOf ss 1) 1 st with
+    | (st, .err e) => (st, .err e)
+    | (st, .ok g) =>
+      match queryColour k iw (streamOf ss 2) 2 st with
+      | (st, .err e) => (st, .err e)
+      | (st, .ok b) => (st, stack3 r g b)
+
+/-- `Kymo.shape`: the shape of the first colour whose image has a non-zero size (else of the last). -/
+def queryShape (k : Kind) (iw : List Nat) (ss : Streams) : List Nat → ObjState → ObjState × Res (List Nat)
+  | [], st => (st, .err "UnboundLocalError")
+  | c :: cs, st =>
+    match queryColour k iw (streamOf ss c) c st with
+    | (st, .err e) => (st, .err e)
+    | (st, .ok im) =>
+      if im.flat.length ≠ 0 ∨ cs.isEmpty then (st, .ok (im.shape ++ [3])) else queryShape k iw ss cs st
+
+/-- One query (`0,1,2` = red, green, blue; `3` = rgb; `4` = `Kymo.shape`) and its printed answer. -/
+def query (k : Kind) (iw : List Nat) (ss : Streams) (st : ObjState) (q : Nat) : ObjState × String :=
+  if q < 3 then
+    let r := queryColour k iw (streamOf ss q) q st
+    (r.1, match r.2 with | .err e => e | .ok im => Verif.Proto.showNatList im.shape ++ " " ++ Verif.Proto.showIntList im.flat)
+  else if q = 3 then
+    let r := queryRgb k iw ss st
+    (r.1, match r.2 with | .err e => e | .ok im => Verif.Proto.showNatList im.shape ++ " " ++ Verif.Proto.showIntList im.flat)
+  else
+    let r := queryShape k iw ss [0, 1, 2] st
+    (r.1, match r.2 with | .err e => e | .ok sh => Verif.Proto.showNatList sh)
+
+/-- The state a sequence of queries leaves behind. -/
+def stateAfter (k : Kind) (iw : List Nat) (ss : Streams) : ObjState → List Nat → ObjState
+  | st, [] => st
+  | st, q :: qs => stateAfter k iw ss (query k iw ss st q).1 qs
+
+/-- The answers of a sequence of queries on one object. -/
+def runSeq (k : Kind) (iw : List Nat) (ss : Streams) : ObjState → List Nat → List String
+  | _, [] => []
+  | st, q :: qs => (query k iw ss st q).2 :: runSeq k iw ss (query k iw ss st q).1 qs
+
 /-! ### specification side (independent of the cumulative-sum algorithm) -/
 
 /-- One timeline sample: (photon count, info-wave code). -/
@@ -245,7 +422,10 @@ def axes? (fa fp sa sp : String) : Option Axes := do
   `c02.kymo P [iw] lead [counts]|N`      `Kymo.get_image(colour)`
   `c02.kymometa P [iw] lead [red]|N`     `Kymo.shape`, `pixels_per_line`
   `c02.scan fa fp sa sp [iw] lead [counts]|N`   `Scan.get_image(colour)`
-  `c02.scanmeta fa fp sa sp meta [iw]`   `num_frames pixels_per_line lines_per_frame shape` -/
+  `c02.scanmeta fa fp sa sp meta [iw]`   `num_frames pixels_per_line lines_per_frame shape`
+  `c02.kymoseq P [iw] lr [r]|N lg [g]|N lb [b]|N [queries]`          answers (joined by `;`) of a sequence of
+  `c02.scanseq fa fp sa sp [iw] lr [r]|N lg [g]|N lb [b]|N [queries]` queries on ONE object: 0,1,2 = `get_image` of
+                                         red, green, blue; 3 = `get_image("rgb")`; 4 = `Kymo.shape` -/
 def handle : List String → Option String
   | ["c02.sum", data, iw, shape] => do
     let data ← intList? data; let iw ← natList? iw; let shape ← natList? shape
@@ -289,6 +469,17 @@ def handle : List String → Option String
     if P * L = 0 then none
     else some (toString (numFrames m iw P L) ++ " " ++ toString P ++ " " ++ toString L ++ " " ++
       showNatList (scanShape axes m iw))
+  | ["c02.kymoseq", p, iw, lr, cr, lg, cg, lb, cb, qs] => do
+    let p ← nat? p; let iw ← natList? iw; let qs ← natList? qs
+    let lr ← int? lr; let cr ← chan? cr; let lg ← int? lg; let cg ← chan? cg; let lb ← int? lb; let cb ← chan? cb
+    if p = 0 ∨ qs.any (· > 4) then none
+    else some (";".intercalate (runSeq (.kymo p) iw [⟨lr, cr⟩, ⟨lg, cg⟩, ⟨lb, cb⟩] ObjState.fresh qs))
+  | ["c02.scanseq", fa, fp, sa, sp, iw, lr, cr, lg, cg, lb, cb, qs] => do
+    let axes ← axes? fa fp sa sp
+    let iw ← natList? iw; let qs ← natList? qs
+    let lr ← int? lr; let cr ← chan? cr; let lg ← int? lg; let cg ← chan? cg; let lb ← int? lb; let cb ← chan? cb
+    if pixelsPerLine axes < 2 ∨ linesPerFrame axes < 2 ∨ qs.any (· > 3) then none
+    else some (";".intercalate (runSeq (.scan axes) iw [⟨lr, cr⟩, ⟨lg, cg⟩, ⟨lb, cb⟩] ObjState.fresh qs))
   | _ => none
 
 end Verif.C02
